@@ -1,0 +1,17 @@
+//go:build verif
+
+package verifapi
+
+import "github.com/tidwall/tile38/internal/glob"
+
+// GlobMatch calls glob.Match.
+func GlobMatch(pattern, str string) (bool, error) { return glob.Match(pattern, str) }
+
+// GlobParse calls glob.Parse and returns the two limits and the IsGlob flag.
+func GlobParse(pattern string, desc bool) (string, string, bool) {
+	g := glob.Parse(pattern, desc)
+	return g.Limits[0], g.Limits[1], g.IsGlob
+}
+
+// GlobIsGlob calls glob.IsGlob.
+func GlobIsGlob(pattern string) bool { return glob.IsGlob(pattern) }
